@@ -27,3 +27,10 @@ func VerifC14ParseTag(s, prefix string, env map[string]string) (route, opts stri
 func VerifC14MakeConfig(c *api.Client, cfg *config.Consul, dc string, passing []*api.HealthCheck) string {
 	return NewServiceMonitor(c, cfg, dc).makeConfig(passing)
 }
+
+// VerifC14MonitorConfig runs makeConfig on a long-lived ServiceMonitor (built with NewServiceMonitor), as
+// Watch does for every change of the health state: the harness drives one monitor through a history of
+// catalog states.
+func VerifC14MonitorConfig(w *ServiceMonitor, passing []*api.HealthCheck) string {
+	return w.makeConfig(passing)
+}
